@@ -574,6 +574,17 @@ class Ref:
             if not cU <= CONDU_LIMIT:
                 bnd = np.full(self.nf, np.inf)
             self.modal_bound = MODAL_FACTOR * bnd
+        # force-independent: where the elastic dynamic stiffness itself is singular (an
+        # undamped resonance hit exactly) the problem has no unique solution whatever the
+        # right-hand side is -- also when that force happens to be zero and the measured
+        # sensitivity therefore vanishes
+        sing_el = np.zeros(self.nf, bool)
+        if self.el.size:
+            ee = np.ix_(self.el, self.el)
+            for j_, Wj in enumerate(self.W):
+                Z = -(Wj ** 2) * M[ee] + 1j * Wj * B[ee] + K[ee]
+                sv = np.linalg.svd(Z, compute_uv=False)
+                sing_el[j_] = not (sv[-1] > 1e-13 * sv[0])
         self.T = {}
         for solver in ("su", "fd"):
             Ts, mask = [], np.ones((self.n, self.nf), bool)
@@ -585,6 +596,8 @@ class Ref:
                     sg = sig[q][rows]
                     tol, amp, scale = O.column_tol(self.base[q][rows], sg)
                     bad = ~(amp <= AMP_LIMIT) | ~np.isfinite(tol)
+                    if name == "el":
+                        bad = bad | sing_el
                     if solver == "su" and name == "el" and self.modal_bound is not None:
                         extra = self.modal_bound * np.abs(self.W) ** q
                         tol = tol + extra
